@@ -534,3 +534,11 @@ func (r *Run) ImportSummary(path, tag string) error {
 	r.assumptions = append(r.assumptions, s.Assumptions...)
 	return nil
 }
+
+// ShmBase is the directory for scratch index files: tmpfs when present.
+func ShmBase() string {
+	if st, err := os.Stat("/dev/shm"); err == nil && st.IsDir() {
+		return "/dev/shm"
+	}
+	return os.TempDir()
+}
